@@ -330,11 +330,11 @@ pub fn case(seed: u64, lane: Lane, trace: bool) -> CaseOut {
 pub fn run(ctx: &Ctx) -> i32 {
     let t = Instant::now();
     let mut rep = Report::default();
-    let g = Group { name: "term-null", cases: ctx.tier.pick(3000, 200_000), budget_s: ctx.tier.pick(45.0, 1200.0), exhaustive: false };
+    let g = Group { name: "term-null", cases: ctx.tier.pick(3000, 200_000), budget_s: ctx.tier.pick(45.0, 720.0), exhaustive: false };
     run_group(ctx, &mut rep, &g, |_, seed, trace| case(seed, Lane::Null, trace));
     #[cfg(feature = "real")]
     {
-        let g = Group { name: "term-real", cases: ctx.tier.pick(200, 10_000), budget_s: ctx.tier.pick(25.0, 400.0), exhaustive: false };
+        let g = Group { name: "term-real", cases: ctx.tier.pick(200, 10_000), budget_s: ctx.tier.pick(25.0, 240.0), exhaustive: false };
         run_group(ctx, &mut rep, &g, |_, seed, trace| case(seed, Lane::Real, trace));
     }
     finish(
